@@ -32,7 +32,9 @@ RULE = ("part 'memory': 2-4 threads run short op lists (write with the thread's 
         "acquire in the code under test expires only when nothing else can run) or has serializers raising a non-Exception in the middle of write(). "
         "part 'loggersched': two threads make the first-ever writes of one MessageType through the production Logger to a registered "
         "destination while (odd cases) a third adds global fields, LINE events on _output.py and _validation.py, all 1-preemption schedules: each "
-        "message delivered exactly once with every field serialized, nothing raised, nothing else delivered. part 'filestress': 8-16 OS-scheduled threads (switch interval 1e-6) write to one real file (buffered, unbuffered, text): "
+        "message delivered exactly once with every field serialized, nothing raised, nothing else delivered. part 'twodefaults' (fresh interpreter without orjson, so eliot encodes with the standard library's json as on PyPy): two "
+        "FileDestinations with different json_default functions, one thread each, LINE events on eliot/json.py too, all 1-preemption schedules: every "
+        "line is encoded by its own destination's default. part 'filestress': 8-16 OS-scheduled threads (switch interval 1e-6) write to one real file (buffered, unbuffered, text): "
         "every line one JSON object, multiset of (thread, seq) == written (per-thread order additionally for binary files). non-trivial = schedule whose "
         "preemption fired inside MemoryLogger/FileDestination code; distinct by interleaving hash")
 ASSUMPTIONS = ["switch points are statement boundaries and blocking primitives (CPython granularity)"]
@@ -50,6 +52,7 @@ def plan(tier, seed):
     specs += [{"part": "memory2p", "seed": seed, "i": j, "tier": tier, "chunk": j, "nchunks": nch} for j in range(nch)]
     specs += [{"part": "filesched", "seed": seed, "i": i, "tier": tier} for i in range(8 if tier == "quick" else 60)]
     specs += [{"part": "loggersched", "seed": seed, "i": i, "tier": tier} for i in range(6 if tier == "quick" else 48)]
+    specs += [{"part": "twodefaults", "seed": seed, "i": 0, "tier": tier, "interpreter": "no_orjson"}]
     specs += [{"part": "filestress", "seed": seed, "i": i, "tier": tier} for i in range(6 if tier == "quick" else 36)]
     return specs
 
@@ -252,6 +255,7 @@ def run_memory2p(spec, res):
 
 def run_memory(spec, res):
     rng = random.Random("%s:C16:m:%d" % (spec["seed"], spec["i"]))
+    MemoryLogger()  # the process owns further MemoryLogger objects, the first of which is never written to (each logger has a lock of its own)
     nthreads = rng.choice([2, 2, 3, 3, 4])
     # validate() serializes the stored messages in place (documented), so it is not idempotent and a serialized traceback
     # message cannot be serialized again: a run has either traceback ops or a single validate() call, never both
@@ -438,6 +442,82 @@ def run_filesched(spec, res):
         execute(p)
 
 
+# --------------------------------------------------------------------------- two encoders at once (interpreter without orjson)
+
+
+class Wrapped(object):
+    def __init__(self, v):
+        self.v = v
+
+
+def run_twodefaults(spec, res):
+    """Two file destinations with DIFFERENT json_default functions are written concurrently, one thread each, in an interpreter
+    where eliot encodes with the standard library's json (no orjson, as on PyPy); LINE events on eliot/json.py as well: every line
+    is encoded with its own destination's default function."""
+    import eliot.json as ejson
+    if not ("orjson" in sys.modules and sys.modules["orjson"] is None):
+        res["inconclusive"] = "not started in an interpreter without orjson"
+        return
+    sched.instrument([ejson])
+    c = res["counters"]
+
+    def default_w(o):
+        if isinstance(o, Wrapped):
+            return {"wrapped": o.v}
+        return ejson.json_default(o)
+    names = ["T0", "T1"]
+    nmsg = 2
+
+    def execute(plan_):
+        f0, f1 = SharedRecordingFile(), SharedRecordingFile()
+        d0 = FileDestination(file=f0, json_default=default_w)
+        d1 = FileDestination(file=f1)
+
+        def w0():
+            for s_ in range(nmsg):
+                d0({"t": 0, "seq": s_, "v": Wrapped(s_)})
+
+        def w1():
+            for s_ in range(nmsg):
+                d1({"t": 1, "seq": s_, "v": {s_}})
+        st, errs = sched.run_schedule(plan_, {"T0": w0, "T1": w1}, timeout=60.0)
+        problems = ["%s raised %r" % (n, e) for n, e in errs.items()]
+        # afterwards both destinations are used once more, one after the other (whatever the overlap left behind must not matter)
+        try:
+            d0({"t": 0, "seq": nmsg, "v": Wrapped(nmsg)})
+            d1({"t": 1, "seq": nmsg, "v": {nmsg}})
+        except BaseException as e:
+            problems.append("a write after the concurrent phase raised %r" % (e,))
+        for t, f, want in ((0, f0, lambda s_: {"wrapped": s_}), (1, f1, lambda s_: [s_])):
+            lines = [json.loads(o[1].decode("utf-8")) for o in f.ops if o[0] == "write" and o[1]]
+            if [(m.get("t"), m.get("seq")) for m in lines] != [(t, s_) for s_ in range(nmsg + 1)] and not problems:
+                problems.append("destination %d holds %s" % (t, [(m.get("t"), m.get("seq")) for m in lines]))
+            for m in lines:
+                if m.get("v") != want(m.get("seq")):
+                    problems.append("destination %d encoded a value as %r: another destination's json_default was used" % (t, m.get("v")))
+        res["evals"] += 1
+        c["two_default_schedules_run"] = c.get("two_default_schedules_run", 0) + 1
+        res["sets"]["interleavings"].append(sched.trace_hash(st))
+        for nm, k, loc in st["fired"]:
+            res["sets"]["preemption_lines"].append(loc)
+        if st["fired"]:
+            res["nontrivial"].append(sched.trace_hash(st))
+        if st["deadlock"]:
+            problems.append("threads deadlocked: %s" % st["deadlock"])
+        elif st["aborted"]:
+            res["inconclusive"] = "schedule abandoned: %s" % st["aborted"]
+        if problems and len(res["violations"]) < 3:
+            res["violations"].append({"msg": problems[0], "mech": None, "detail": {"part": "twodefaults", "plan": plan_, "problems": problems[:5]}})
+        return st
+
+    for order in itertools.permutations(names):
+        base = execute({"order": list(order), "changes": []})
+        for p in sched.one_preemption_plans(list(order), base["events"]):
+            execute(p)
+            if len(res["violations"]) >= 3:
+                return
+
+
 # --------------------------------------------------------------------------- the production Logger under the scheduler
 
 
@@ -590,6 +670,10 @@ def run_case(spec):
     res = {"evals": 0, "nontrivial": [], "counters": {}, "violations": [], "sample": None, "sets": {"interleavings": [], "preemption_lines": []}}
     if spec["part"] == "filestress":
         run_filestress(spec, res)
+        return res
+    if spec["part"] == "twodefaults":
+        sched.instrument([_output])
+        run_twodefaults(spec, res)
         return res
     from eliot import _validation
     n = sched.instrument([_output, _validation] if spec["part"] in ("memory", "memory2p", "loggersched") else [_output])
